@@ -19,9 +19,11 @@ RULE = ("family x graph x parameters x formula class: every simple graph with <=
         "clique / binary clique k in 0..n+1 x symbreak, Ramsey witness (k,s) in 0..4^2 x symbreak; under the variable cap; "
         "distinct = (family, graph, parameters, class); trivial = formula without variables.")
 ASSUMPTIONS = ["vmon/tt.py truth tables (self-checked)", "brute-force graph algorithms in this module",
-               "k-colouring names x_{vc} are decoded digit-wise (vertex and colour numbers are single digits in every case)"]
+               "k-colouring names x_{vc} are decoded digit-wise (vertex and colour numbers are single digits in every case)",
+               "beyond the cap (7-30 vertices) the formula is evaluated on constructed witnesses and their 1-3 flip perturbations against a direct predicate"]
 REQUIRED = ["exact_cases", "satisfiable_cases", "unsatisfiable_cases", "projected_cases", "opb_cases", "cnf_cases",
-            "networkx_inputs", "refused_expected", "tseitin_count_formula_checked"] + ["family_" + f for f in
+            "networkx_inputs", "refused_expected", "tseitin_count_formula_checked", "sampled_cases", "sampled_true_references",
+            "sampled_false_references"] + ["family_" + f for f in
             ("tseitin", "kcolor", "ec", "domset", "tiling", "iso", "auto", "subgraph", "kclique", "kcliquebin", "ramlb")]
 CASE_TIMEOUT = {"quick": 300, "thorough": 1800}
 
@@ -575,3 +577,248 @@ def workload(tier, seed):
                 for ch in chunks(gmasks, 8):
                     yield "subgraph", {"cls": cls, "N": N, "k": k, "gmasks": ch, "hmasks": hmasks, "as_nx": False}
         yield "subgraph", {"cls": cls, "N": 3, "k": 2, "gmasks": [0, 3, 7], "hmasks": [0, 1], "as_nx": True}
+        for i in range(2 if quick else 24):
+            yield "large", {"cls": cls, "rseed": seed * 100 + i}
+
+
+# ------------------------------------------------------------------ beyond the cap: sampled assignments at realistic sizes
+def random_graph(r, n, m):
+    E = set()
+    allp = S.pairs(n)
+    for e in r.sample(allp, min(m, len(allp))):
+        E.add(e)
+    return sorted(E)
+
+
+def graph_obj(n, E):
+    from cnfgen.graphs import Graph
+    G = Graph(n)
+    for e in E:
+        G.add_edge(*e)
+    return G
+
+
+def sampled_compare(ctx, fam, desc, F, assignments, predicate, key):
+    """assignments: iterable of sets of true variables; predicate(trueset) -> bool (the reference)."""
+    from ..refmodels.names import eval_formula
+    nt = nf = 0
+    for t in assignments:
+        exp = predicate(t)
+        got = eval_formula(F, t)
+        ctx.count("sampled_assignments")
+        if exp:
+            nt += 1
+        else:
+            nf += 1
+        if got != exp:
+            ctx.violation("%s:sampled:%s" % (fam, "satisfied-by-non-object" if got else "object-not-a-model"),
+                          "%s: an assignment that %s the documented condition %s the formula; true variables %s"
+                          % (desc, "meets" if exp else "violates", "satisfies" if got else "falsifies",
+                             sorted(S.name_of(F, v) for v in t)[:30]))
+            break
+    ctx.count("sampled_cases")
+    ctx.count("sampled_true_references", nt)
+    ctx.count("sampled_false_references", nf)
+    ctx.judged(key, sample={"family": fam, "case": desc, "variables": F.number_of_variables(), "mode": "sampled",
+                            "assignments_true": nt, "assignments_false": nf})
+
+
+def perturb(r, base, universe, howmany):
+    out = [set(base)]
+    universe = list(universe)
+    for _ in range(howmany):
+        t = set(base)
+        for v in r.sample(universe, min(len(universe), r.choice([1, 1, 2, 3]))):
+            t ^= {v}
+        out.append(t)
+    return out
+
+
+def case_large(ctx, cls, rseed):
+    g = gens()
+    r = ctx.rng("c02large", cls, rseed)
+    K = S.formula_classes()[cls]
+    # ---- Tseitin on larger graphs: a solution from a spanning forest, then perturbations
+    for n, m in ((12, 20), (20, 34), (30, 45)):
+        E = random_graph(r, n, m)
+        adj = adjacency(n, E)
+        comps = components(n, E)
+        charge = [r.random() < 0.5 for _ in range(n)]
+        for c in comps:                      # make every component even, so that solutions exist
+            if sum(charge[v - 1] for v in c) % 2:
+                v = min(c)
+                charge[v - 1] = not charge[v - 1]
+        desc = "TseitinFormula(random graph %d vertices %d edges, random even charges)[%s]" % (n, len(E), cls)
+        F, at = setup(ctx, "tseitin", cls, desc, g.TseitinFormula, graph_obj(n, E), list(charge))
+        if F is None:
+            continue
+        ev = at.get("E_{#,#}", {})
+        if set(ev) != set(E):
+            ctx.violation("tseitin:atoms", "%s: variables do not name the edges" % desc)
+            continue
+        # solve: start from all-false, fix parities bottom-up along a DFS forest
+        val = {e: False for e in E}
+        seen = set()
+        order, parent = [], {}
+        for s0 in range(1, n + 1):
+            if s0 in seen:
+                continue
+            stack = [s0]
+            seen.add(s0)
+            while stack:
+                u = stack.pop()
+                order.append(u)
+                for w in sorted(adj[u]):
+                    if w not in seen:
+                        seen.add(w)
+                        parent[w] = u
+                        stack.append(w)
+        for u in reversed(order):
+            if u in parent:
+                par = sum(val[(min(u, w), max(u, w))] for w in adj[u]) % 2
+                if par != int(charge[u - 1]):
+                    e = (min(u, parent[u]), max(u, parent[u]))
+                    val[e] = not val[e]
+        base = {ev[e] for e in E if val[e]}
+
+        def pred(t, ev=ev, E=E, charge=charge, n=n):
+            deg = [0] * (n + 1)
+            for (u, v) in E:
+                if ev[(u, v)] in t:
+                    deg[u] += 1
+                    deg[v] += 1
+            return all(deg[v] % 2 == int(charge[v - 1]) for v in range(1, n + 1))
+        if not pred(base):
+            raise AssertionError("Tseitin spanning-forest solution is wrong")
+        # cycles keep a solution a solution: flip the edges of a random triangle-free cycle found via two tree paths is
+        # more work than needed; perturbations by 1-3 edges are (almost always) non-solutions, the base is a solution
+        sampled_compare(ctx, "tseitin", desc, F, perturb(r, base, ev.values(), 40), pred, ("tseitin-large", n, tuple(E), cls, rseed))
+    # ---- k-colouring with a planted colouring (single-digit vertices and colours: names are x_{vc})
+    for n, k in ((9, 3), (8, 4), (9, 2)):
+        part = [r.randrange(k) for _ in range(n)]
+        E = [(u, v) for (u, v) in S.pairs(n) if part[u - 1] != part[v - 1] and r.random() < 0.5]
+        for functional in (True, False):
+            desc = "GraphColoringFormula(planted %d-partite graph on %d vertices, %d, functional=%s)[%s]" % (k, n, k, functional, cls)
+            F, at = setup(ctx, "kcolor", cls, desc, g.GraphColoringFormula, graph_obj(n, E), k, functional=functional)
+            if F is None:
+                continue
+            x = {(d[0] // 10, d[0] % 10): v for d, v in at.get("x_{#}", {}).items()}
+            if set(x) != {(v, c) for v in range(1, n + 1) for c in range(1, k + 1)}:
+                ctx.count("names_not_decodable")
+                continue
+            base = {x[(v, part[v - 1] + 1)] for v in range(1, n + 1)}
+
+            def pred(t, x=x, E=E, n=n, k=k, functional=functional):
+                col = {v: [c for c in range(1, k + 1) if x[(v, c)] in t] for v in range(1, n + 1)}
+                if any(not col[v] for v in col) or (functional and any(len(col[v]) > 1 for v in col)):
+                    return False
+                return all(not set(col[u]) & set(col[v]) for u, v in E)
+            sampled_compare(ctx, "kcolor", desc, F, perturb(r, base, x.values(), 40), pred,
+                            ("kcolor-large", n, k, functional, tuple(E), cls, rseed))
+    # ---- cliques with a planted clique, unary and binary encodings
+    for n, k in ((10, 4), (13, 5), (17, 3)):
+        clique = sorted(r.sample(range(1, n + 1), k))
+        E = sorted(set(random_graph(r, n, 2 * n)) | {(u, v) for u, v in itertools.combinations(clique, 2)})
+        sE = set(E)
+        for symbreak in (True, False):
+            desc = "CliqueFormula(random graph %d vertices + planted %d-clique, symbreak=%s)[%s]" % (n, k, symbreak, cls)
+            F, at = setup(ctx, "kclique", cls, desc, g.CliqueFormula, graph_obj(n, E), k, symbreak=symbreak)
+            if F is not None:
+                s = at.get("s_{#,#}", {})
+                if len(s) == k * n:
+                    base = {s[(i + 1, clique[i])] for i in range(k)}
+
+                    def pred(t, s=s, n=n, k=k, sE=sE, symbreak=symbreak):
+                        img = []
+                        for i in range(1, k + 1):
+                            js = [j for j in range(1, n + 1) if s[(i, j)] in t]
+                            if len(js) != 1:
+                                return False
+                            img.append(js[0])
+                        if len(set(img)) != k or (symbreak and img != sorted(img)):
+                            return False
+                        return all((min(a, b), max(a, b)) in sE for a, b in itertools.combinations(img, 2))
+                    pool = perturb(r, base, s.values(), 30)
+                    if not symbreak:
+                        perm = clique[:]
+                        r.shuffle(perm)
+                        pool.append({s[(i + 1, perm[i])] for i in range(k)})
+                    sampled_compare(ctx, "kclique", desc, F, pool, pred, ("kclique-large", n, k, symbreak, tuple(E), cls, rseed))
+            desc = "BinaryCliqueFormula(random graph %d vertices + planted %d-clique, symbreak=%s)[%s]" % (n, k, symbreak, cls)
+            F, at = setup(ctx, "kcliquebin", cls, desc, g.BinaryCliqueFormula, graph_obj(n, E), k, symbreak=symbreak)
+            if F is not None:
+                y = at.get("y_{#,#}", {})
+                bits = (n - 1).bit_length()
+                if len(y) == k * bits:
+                    base = {y[(i + 1, b)] for i in range(k) for b in range(bits) if ((clique[i] - 1) >> b) & 1}
+
+                    def predb(t, y=y, n=n, k=k, bits=bits, sE=sE, symbreak=symbreak):
+                        img = [1 + sum((1 << b) for b in range(bits) if y[(i, b)] in t) for i in range(1, k + 1)]
+                        if any(j > n for j in img) or len(set(img)) != k or (symbreak and img != sorted(img)):
+                            return False
+                        return all((min(a, b), max(a, b)) in sE for a, b in itertools.combinations(img, 2))
+                    sampled_compare(ctx, "kcliquebin", desc, F, perturb(r, base, y.values(), 40), predb,
+                                    ("kcliquebin-large", n, k, symbreak, tuple(E), cls, rseed))
+    # ---- isomorphism with a relabelled copy
+    for n in (7, 10, 12):
+        E1 = random_graph(r, n, 2 * n)
+        perm = list(range(1, n + 1))
+        r.shuffle(perm)
+        E2 = sorted((min(perm[u - 1], perm[v - 1]), max(perm[u - 1], perm[v - 1])) for u, v in E1)
+        desc = "GraphIsomorphism(random graph on %d vertices, relabelled copy)[%s]" % (n, cls)
+        F, at = setup(ctx, "iso", cls, desc, g.GraphIsomorphism, graph_obj(n, E1), graph_obj(n, E2))
+        if F is None:
+            continue
+        x = at.get("x_{#,#}", {})
+        if len(x) != n * n:
+            continue
+        base = {x[(u, perm[u - 1])] for u in range(1, n + 1)}
+        s1, s2 = set(E1), set(E2)
+
+        def predi(t, x=x, n=n, s1=s1, s2=s2):
+            img = {}
+            for u in range(1, n + 1):
+                vs = [v for v in range(1, n + 1) if x[(u, v)] in t]
+                if len(vs) != 1:
+                    return False
+                img[u] = vs[0]
+            if len(set(img.values())) != n:
+                return False
+            return all(((min(img[u], img[v]), max(img[u], img[v])) in s2) == ((u, v) in s1) for u, v in S.pairs(n))
+        pool = perturb(r, base, x.values(), 25)
+        for _ in range(10):                      # other bijections (almost never isomorphisms)
+            p2 = perm[:]
+            i, j = r.sample(range(n), 2)
+            p2[i], p2[j] = p2[j], p2[i]
+            pool.append({x[(u, p2[u - 1])] for u in range(1, n + 1)})
+        sampled_compare(ctx, "iso", desc, F, pool, predi, ("iso-large", n, tuple(E1), tuple(perm), cls, rseed))
+    # ---- dominating set / tiling on larger graphs: full assignments built from vertex sets
+    for n, m, d in ((10, 14, 4), (14, 20, 5)):
+        E = random_graph(r, n, m)
+        N = closed_nbhd(n, E)
+        for alt in (False, True):
+            desc = "DominatingSet(random graph %d vertices %d edges, %d, alternative=%s)[%s]" % (n, len(E), d, alt, cls)
+            F, at = setup(ctx, "domset", cls, desc, g.DominatingSet, graph_obj(n, E), d, alternative=alt)
+            if F is None:
+                continue
+            x, f = at.get("x_{#}", {}), at.get("f(#)=#", {})
+            if len(x) != n or len(f) != n * d:
+                continue
+            pool = []
+            for _ in range(40):
+                Sset = sorted(r.sample(range(1, n + 1), r.randint(1, d)))
+                t = {x[(v,)] for v in Sset} | {f[(v, i + 1)] for i, v in enumerate(Sset)}
+                pool.append((t, all(N[v] & set(Sset) for v in N)))
+            # greedy dominating sets so that satisfying assignments are present
+            for _ in range(10):
+                left, Sset = set(range(1, n + 1)), []
+                while left and len(Sset) < d:
+                    v = max(range(1, n + 1), key=lambda u: (len(N[u] & left), r.random()))
+                    Sset.append(v)
+                    left -= N[v]
+                Sset = sorted(Sset)
+                t = {x[(v,)] for v in Sset} | {f[(v, i + 1)] for i, v in enumerate(Sset)}
+                pool.append((t, not left))
+            exp = {frozenset(t): e for t, e in pool}
+            sampled_compare(ctx, "domset", desc, F, [set(t) for t in exp], lambda t, exp=exp: exp[frozenset(t)],
+                            ("domset-large", n, d, alt, tuple(E), cls, rseed))
